@@ -88,7 +88,9 @@ func init() {
 			if r.Counters["race_detector_active"] == 0 {
 				r.Inconc("the monitor binary was not built with -race")
 			}
-			for k, min := range map[string]int64{"max_in_flight": 4, "double_misses": 20, "pool_objects_seen_by_2plus_goroutines": 5, "calls_while_2plus_in_flight": 2000, "entry_kind_pairs_overlapping": 100, "stampede_bursts": 300} {
+			// double misses and cross-goroutine pool hand-overs are reported but not required: they
+			// exist only while the implementation caches through CacheEr and pools its validators
+			for k, min := range map[string]int64{"max_in_flight": 4, "calls_while_2plus_in_flight": 2000, "entry_kind_pairs_overlapping": 100, "stampede_bursts": 300} {
 				if r.Counters[k] < min {
 					r.Inconc(fmt.Sprintf("schedule-dependent minimum not reached: %s=%d (minimum %d)", k, r.Counters[k], min))
 				}
